@@ -44,7 +44,7 @@ def oracle(ep, outs):
     answered = {"ok": 0, "failed": 0, "limited": 0}
     ended_by_name = {}
     for line, o in zip(ol[1:], outs[1:]):
-        if o in ("hang", "bad-op"):
+        if o in ("hang", "bad-op") or o.startswith("resp aborted"):   # a panic in the balancer before any backend was contacted
             fails.append("%s -> %s" % (line, o))
             break
         info = sh.apply(line, o)
